@@ -250,7 +250,7 @@ func cmdCheck(args []string) int {
 		}
 	}
 
-	workDir := filepath.Join(verifDir, ".work", prop+"-"+tier)
+	workDir := filepath.Join(verifDir, ".work", fmt.Sprintf("%s-%s-%d", prop, tier, os.Getpid()))
 	os.RemoveAll(workDir)
 	os.MkdirAll(workDir, 0o755)
 	defer os.RemoveAll(workDir)
